@@ -62,10 +62,13 @@ Out(e)  == IF e = "c" THEN "c2s" ELSE "s2c"
 In(e)   == IF e = "c" THEN "s2c" ELSE "c2s"
 
 (* Abstract authentication methods.  "A", "B": implemented and usable (the
-   binding uses CLAIMTOBE and TOKEN); "F": implemented but its exchange fails
+   binding uses CLAIMTOBE and TOKEN); "C": a third usable NAME whose exchange is
+   that of "B" (the binding uses the second spelling of the token method,
+   IDTOKENS, which shares B's wire bit: the two are different names and the ends
+   must report the same one); "F": implemented but its exchange fails
    at run time; "U": a known name without an implementation (PASSWORD);
    anything else: an unknown name.                                           *)
-Kind(m) == CASE m \in {"A", "B"} -> "usable"
+Kind(m) == CASE m \in {"A", "B", "C"} -> "usable"
              [] m = "F" -> "failsrt"
              [] m = "U" -> "unimpl"
              [] OTHER   -> "unknown"
@@ -73,7 +76,7 @@ Implemented(m) == Kind(m) \in {"usable", "failsrt"}
 Usable(m)      == Kind(m) = "usable"
 (* frames of a method's exchange, by direction *)
 Script(m) == CASE m = "A" -> <<"c2s", "s2c">>
-               [] m = "B" -> <<"c2s", "s2c", "c2s">>
+               [] m \in {"B", "C"} -> <<"c2s", "s2c", "c2s">>
                [] m = "F" -> <<"c2s", "s2c">>
                [] OTHER   -> << >>
 UsableCipher(x) == x = "AES"
